@@ -406,6 +406,9 @@ func GenTx(t *rapid.T, p *Profile, pools *Pools, o TxOpts) *m.Tx {
 		if rapid.IntRange(0, 3).Draw(t, "hasnote") == 0 && !p.off("tx.pipe") {
 			tx.HasNote = true
 			notes := []string{"weekly", "note é", "", "2 items", "Rent: May"}
+			if !p.off("note.pipe") {
+				notes = append(notes, "milk | eggs", "a || b")
+			}
 			var ok []string
 			for _, n := range notes {
 				if n != "" && n[0] >= '0' && n[0] <= '9' && p.off("note.digit") {
